@@ -204,7 +204,7 @@ func invocation(c Cmd, ids *IDMap) (args []string, stdin []byte) {
 		for _, f := range [][2]string{{"title", "--title"}, {"state", "--state"}, {"claim", "--claim"},
 			{"rsum", "--result-summary"}, {"rpath", "--result-path"}} {
 			if c.has(f[0]) {
-				fl = append(fl, f[1], c.str(f[0]))
+				fl = append(fl, f[1]+"="+expandToken(c.str(f[0])))
 			}
 		}
 		if c.has("epic") {
@@ -212,7 +212,7 @@ func invocation(c Cmd, ids *IDMap) (args []string, stdin []byte) {
 			if e != "" {
 				e = ids.real(e)
 			}
-			fl = append(fl, "--epic", e)
+			fl = append(fl, "--epic="+e)
 		}
 		return fl
 	}
@@ -227,13 +227,13 @@ func invocation(c Cmd, ids *IDMap) (args []string, stdin []byte) {
 		case "flags":
 			args = append(args, flagFields()...)
 			if c.has("body") {
-				args = append(args, "--body", c.str("body"))
+				args = append(args, "--body="+expandToken(c.str("body")))
 			}
 		case "bodystdin":
 			args = append(args, "--body-stdin")
 			args = append(args, flagFields()...)
 			if c.has("body") {
-				stdin = []byte(c.str("body"))
+				stdin = []byte(expandToken(c.str("body")))
 			} else {
 				stdin = []byte{}
 			}
@@ -246,12 +246,12 @@ func invocation(c Cmd, ids *IDMap) (args []string, stdin []byte) {
 		case "flags":
 			args = append(args, flagFields()...)
 			if c.has("body") {
-				args = append(args, "--body", c.str("body"))
+				args = append(args, "--body="+expandToken(c.str("body")))
 			}
 		case "bodystdin":
 			args = append(args, "--body-stdin")
 			args = append(args, flagFields()...)
-			stdin = []byte(c.str("body"))
+			stdin = []byte(expandToken(c.str("body")))
 		default:
 			stdin = jsonFields(true)
 		}
@@ -310,6 +310,10 @@ func planJSON(doc any) []byte {
 		if s, ok := v.(string); ok && s == Absent {
 			return
 		}
+		if s, ok := v.(string); ok {
+			dst[k] = expandToken(s)
+			return
+		}
 		if v != nil {
 			dst[k] = v
 		}
@@ -324,7 +328,13 @@ func planJSON(doc any) []byte {
 			put(o, "title", tm["title"])
 			put(o, "body", tm["body"])
 			if a, ok := tm["after"].([]any); ok && len(a) > 0 {
-				o["after"] = a
+				var ex []any
+				for _, x := range a {
+					if xs, ok := x.(string); ok {
+						ex = append(ex, expandToken(xs))
+					}
+				}
+				o["after"] = ex
 			}
 			tasks = append(tasks, o)
 		}
